@@ -486,7 +486,95 @@ def check_multi(ctx: Ctx, case: dict) -> None:
                 != case["train_steps"] else "multi_steps_equal"])
 
 
-SUBS = {"multi": check_multi, "linear": check_program, "bundled": check_program,
+@st.composite
+def describe_cases(draw: Any) -> dict:
+    """A user-defined System whose figure of merit uses only a prefix of the
+    state (state_dims_in_j) that differs from the plotting modulus, with its
+    own gamma and different test / training budgets."""
+    # (state dims, plotting modulus) pairs the plot routine can draw
+    dim, mod = draw(st.sampled_from([(2, 2), (3, 3), (4, 2), (6, 2),
+                                     (6, 3)]))
+
+    def states(k: int) -> list[list[float]]:
+        return [[draw(st.integers(-24, 24)) / 8.0 for _ in range(dim)]
+                for _ in range(k)]
+
+    return {"dim": dim, "mod": mod,
+            "in_j": draw(st.sampled_from([-1, *range(1, dim + 1)])),
+            "gamma": draw(st.sampled_from([0.1, 0.0, 1.0, 2.5])),
+            "decay": draw(st.integers(1, 8)) / 4.0,
+            "gain": draw(st.integers(0, 8)) / 4.0,
+            "test": states(draw(st.integers(1, 2))),
+            "train": states(draw(st.integers(1, 2))),
+            "test_steps": draw(st.integers(10, 30)),
+            "train_steps": draw(st.integers(10, 30)),
+            "test_time": draw(st.sampled_from([0.5, 1.0, 2.0])),
+            "train_time": draw(st.sampled_from([0.25, 1.0, 3.0]))}
+
+
+def check_describe(ctx: Ctx, case: dict) -> None:
+    """System.describe_system reports, per starting state, the documented
+    figure of merit of the simulation it ran (CSV written by ResultsLog)."""
+    import os
+    import shutil
+    import tempfile
+
+    from moptipyapps.dynamic_control.ode import j_from_ode, run_ode, t_from_ode
+    from moptipyapps.dynamic_control.system import System
+    dim, decay, gain = case["dim"], case["decay"], case["gain"]
+
+    def eq(s: Any, _t: float, c: Any, out: Any) -> None:
+        for i in range(dim):
+            out[i] = -decay * s[i] + c[0]
+
+    def ctrl(s: Any, _t: float, p: Any, out: Any) -> None:
+        out[0] = -p[0] * s[0]
+
+    system = sut("System()", System, "gen", dim, 1, case["mod"],
+                 case["in_j"], float(case["gamma"]),
+                 np.array(case["test"], dtype=float),
+                 np.array(case["train"], dtype=float), case["test_steps"],
+                 float(case["test_time"]), case["train_steps"],
+                 float(case["train_time"]), (0,))
+    system.equations = eq  # type: ignore
+    params = np.array([gain])
+    tmp = tempfile.mkdtemp(prefix="vf_c10_")
+    try:
+        files = sut("describe_system", system.describe_system, None, ctrl,
+                    params, "d", tmp)
+        csv = [f for f in files if str(f).endswith(".csv")]
+        require(len(csv) == 1 and os.path.isfile(csv[0]),
+                f"describe_system returned {files}")
+        with open(csv[0], encoding="utf-8") as fh:
+            lines = [ln.strip() for ln in fh if ln.strip()]
+    finally:
+        shutil.rmtree(tmp, ignore_errors=True)
+    want = [(sp, case["test_steps"], float(case["test_time"]))
+            for sp in case["test"]] + \
+        [(sp, case["train_steps"], float(case["train_time"]))
+         for sp in case["train"]]
+    require(len(lines) == len(want) + 1, lambda: f"{len(lines) - 1} result "
+            f"rows for {len(want)} starting states")
+    use = dim if case["in_j"] <= 0 else case["in_j"]
+    for k, (line, (sp, steps, tmax)) in enumerate(zip(lines[1:], want)):
+        cells = [float(v) for v in line.split(";")]
+        ode = run_ode(np.array(sp, dtype=float), eq, ctrl, params, 1, steps,
+                      tmax)
+        j = float(j_from_ode(ode, dim, use, float(case["gamma"])))
+        require(cells[2] == len(ode), lambda: f"row {k}: {cells[2]} steps "
+                f"logged, simulation has {len(ode)}")
+        require(cells[1] == float(t_from_ode(ode)),
+                f"row {k}: logged time {cells[1]}")
+        require(cells[0] == j, lambda: f"row {k}: logged figure of merit "
+                f"{cells[0]!r}, the documented sum over the first {use} state"
+                f" dimensions with gamma={case['gamma']} is {j!r}")
+    ctx.rec.case(case, nontrivial=(use != dim and use != case["mod"]),
+                 labels=["describe", "describe:in_j=prefix" if use != dim
+                         else "describe:in_j=all"])
+
+
+SUBS = {"describe": check_describe, "multi": check_multi,
+        "linear": check_program, "bundled": check_program,
         "adversarial": check_program, "nan_at_start": check_nan_at_start,
         "fom": check_fom}
 
@@ -497,6 +585,8 @@ def run(ctx: Ctx) -> None:
              if ctx.shard == 0 else [], check_nan_at_start)
     ctx.given("multi", multi_cases(), check_multi, quick=60,
               thorough=16 * 300)
+    ctx.given("describe", describe_cases(), check_describe, quick=8,
+              thorough=16 * 12, shrink=False)
     ctx.given("fom", gen_dc.ode_arrays(), check_fom,
               quick=300, thorough=16 * 1500)
     ctx.given("linear", gen_dc.linear_programs(), check_program,
